@@ -148,6 +148,10 @@ pub struct World<S: Sut> {
     pub ever_noncausal: bool,
     /// the schedule-level R7 trigger (taint::r7_state) held at some replica at some step of this history
     pub t7_fired: bool,
+    /// the schedule-level R2 trigger (taint::r2_merge) held for some merge evaluated in this history
+    pub t2_fired: bool,
+    /// schedule-level part of the R1 trigger (taint::r1_state)
+    pub t1_fired: bool,
     pub past: Vec<Vec<S>>,
     /// actor identity each replica edits through (learned from the script's Gen actions)
     pub actors: Vec<Option<u8>>,
@@ -210,6 +214,8 @@ impl<S: Sut> World<S> {
             noncausal: vec![false; n],
             ever_noncausal: false,
             t7_fired: false,
+            t2_fired: false,
+            t1_fired: false,
             past: (0..n).map(|_| vec![S::new()]).collect(),
             actors: vec![None; n],
             ops: vec![],
@@ -259,6 +265,12 @@ impl<S: Sut> World<S> {
         let rfc = &self.rfc;
         let past = |i: usize, j: usize| -> bool { rfc[j] >> i & 1 == 1 };
         S::spec(&SpecIn { facts: &facts, all: &self.facts, past: &past })
+    }
+    /// record that a merge of states with knowledge sets kx and ky is being evaluated
+    fn note_merge(&mut self, kx: Bits, ky: Bits) {
+        if S::IS_MAP && !self.t2_fired && crate::taint::r2_merge(&self.facts, kx, ky) {
+            self.t2_fired = true;
+        }
     }
     fn lg(&mut self, s: String) {
         if !self.quiet {
@@ -418,6 +430,7 @@ impl<S: Sut> World<S> {
                 self.merged = true;
                 self.st.merges += 1;
                 let other = self.reps[*s].clone();
+                self.note_merge(self.know[*r], self.know[*s]);
                 self.shadow_merge(*r, &other)?;
                 self.reps[*r].merge_from(other);
                 self.know[*r] |= self.know[*s];
@@ -437,6 +450,7 @@ impl<S: Sut> World<S> {
                 self.merged = true;
                 self.st.stale_merges += 1;
                 let (other, ko) = self.pool[p].clone();
+                self.note_merge(self.know[*r], ko);
                 self.shadow_merge(*r, &other)?;
                 self.reps[*r].merge_from(other);
                 self.know[*r] |= ko;
@@ -493,6 +507,12 @@ impl<S: Sut> World<S> {
         }
         let k = self.know[r];
         let cfg = self.cfg;
+        if S::IS_MAP && !S::ANYK_OK && !self.t1_fired && self.ever_noncausal {
+            let kf = self.facts_of(k);
+            if crate::taint::r1_state(&kf, &self.facts, &|id| k >> id & 1 == 1) {
+                self.t1_fired = true;
+            }
+        }
         if S::IS_MAP && !self.t7_fired && self.ever_noncausal {
             let kf = self.facts_of(k);
             if crate::taint::r7_state(&kf, &self.facts, &|id| k >> id & 1 == 1) {
@@ -770,6 +790,7 @@ impl<S: Sut> World<S> {
         let picks = [stale[(mix(step as u64, 7) as usize) % stale.len()], stale[(mix(step as u64, 9) as usize) % stale.len().min(4)]];
         for i in picks {
             self.st.ev("stale");
+            self.note_merge(k, self.pool[i].1);
             let mut c = self.reps[r].clone();
             c.merge_from(self.pool[i].0.clone());
             let o2 = c.observe();
@@ -1265,6 +1286,9 @@ impl<S: Sut> World<S> {
                     break;
                 }
             }
+        }
+        for (x, y) in [(ka, kb), (kb, kc), (ka | kb, kc), (ka, kb | kc), (ka, kc)] {
+            self.note_merge(x, y);
         }
         let kind = kind % 4;
         self.lg(format!("{step}: law{kind} on pool states {} {} {} (K={ka:#x},{kb:#x},{kc:#x})", i % n, j % n, k3 % n));
